@@ -419,6 +419,10 @@ struct CallCtx {
       if (!same && !receiver_alias(const_used[i].second) && getenv("VERIF_TRACE") && std::string(HTN(const_used[i].first)) == "Polyhedron") {
         std::cerr << "TRACE const handle before:\n"; static_cast<const PPL::Polyhedron*>(const_clones[i])->ascii_dump(std::cerr);
         std::cerr << "TRACE const handle after:\n"; static_cast<const PPL::Polyhedron*>(const_used[i].second)->ascii_dump(std::cerr); }
+      if (!same && !receiver_alias(const_used[i].second) && getenv("VERIF_TRACE") && std::string(HTN(const_used[i].first)) == "Pointset_Powerset_NNC_Polyhedron") {
+        typedef PPL::Pointset_Powerset<PPL::NNC_Polyhedron> PSN;
+        std::cerr << "TRACE const handle before:\n"; static_cast<const PSN*>(const_clones[i])->ascii_dump(std::cerr);
+        std::cerr << "TRACE const handle after:\n"; static_cast<const PSN*>(const_used[i].second)->ascii_dump(std::cerr); }
       if (!same && !receiver_alias(const_used[i].second)) ctx->violation("C20", "const-handle-modified", kl(HTN(const_used[i].first)), "a handle passed as const denotes a different value after the call");
     }
     faith_check(r);
